@@ -252,7 +252,7 @@ def run_C15(ctx):
 
 PATH_PART = {"C05": (["match"], ["Inv_NoPanic", "Inv_C05_Path"]),
              "C06": (["preload"], ["Inv_NoPanic", "Inv_C06_PathPreload"]),
-             "C20": (["match"], ["Inv_NoPanic", "Inv_C20_PathOrder"])}
+             "C20": (["match"], ["Inv_NoPanic", "Inv_C20_PathOrder", "Inv_C20_PathExact", "Inv_C20_PathSame"])}
 
 
 def run_mixed(pid, file_gens, dir_gens):
@@ -318,7 +318,8 @@ def run_C07(ctx):
          bgen(ctx, b, "random", ["-count", 30 if q else 500]),
          bgen(ctx, b, "wide", ["-maxn", 400 if q else 40000]),
          bgen(ctx, b, "deep", ["-maxn", 300 if q else 3000]),
-         bgen(ctx, b, "cdc", ["-count", 150 if q else 3000])]
+         bgen(ctx, b, "cdc", ["-count", 150 if q else 3000]),
+         bgen(ctx, b, "chunkers", [])]
     ctx.exhaustive = True
     decide(ctx, b, "TraceBuild", BUILD_INVS["C07"], t, extras=["Inv_X_TrickleShape"])
 
@@ -363,7 +364,7 @@ def run_C16(ctx):
          bgen(ctx, b, "mixdir", ["-faults", "-repeat", 0, "-maxn", 12]),
          bgen(ctx, b, "misc", [])]
     ctx.exhaustive = True
-    decide(ctx, b, "TraceBuild", BUILD_INVS["C16"], t)
+    decide(ctx, b, "TraceBuild", BUILD_INVS["C16"], t, extras=["Inv_X_ReaderFailure"])
 
 
 # ----------------------------------------------------------------------------
@@ -469,7 +470,7 @@ def run_C18(ctx):
          gen(ctx, b, "import_random", ["import-gen", "-what", "random", "-count", 40 if q else 600, "-seed", ctx.seed]),
          gen(ctx, b, "import_wide", ["import-gen", "-what", "wide"])]
     ctx.exhaustive = True
-    decide(ctx, b, "TraceImport", ["Inv_NoPanic", "Inv_Harness_Walk", "Inv_C18_Reject", "Inv_C18_Tree", "Inv_C18_Shard", "Inv_C18_Big"], t)
+    decide(ctx, b, "TraceImport", ["Inv_NoPanic", "Inv_NoHang", "Inv_Harness_Walk", "Inv_C18_Reject", "Inv_C18_Tree", "Inv_C18_Shard", "Inv_C18_Big"], t)
 
 
 def run_C19(ctx):
